@@ -143,7 +143,36 @@ def gen_condition_template(rng, n):
         return {"Fn::Or": [body(d - 1) for _ in range(rng.randint(1, 3))]}
 
     conds = {c: body(rng.choice([1, 1, 2, 3])) for c in names}
+    if n >= 3 and rng.random() < 0.2:
+        # a cycle with a CLEAN side branch evaluated after the cycle was hit: A = And/Or(.. B .. C ..), B = Not(A) (or a longer way
+        # back to A), C a condition outside the cycle that nothing has evaluated yet.  Whatever bookkeeping tells "this value was
+        # computed while a cycle was cut" must survive the nested clean evaluation (seeded change C07-r7Bm1 reset it there); the
+        # declaration order decides which condition is entered first, so every order must give the same values.
+        a, b, c = names[:3]
+        side = {"Fn::Equals": [operand(), operand()]} if rng.random() < 0.7 else {"Fn::Not": [{"Fn::Equals": ["x", "y"]}]}
+        back = rng.choice([{"Fn::Not": [{"Condition": a}]}, {"Condition": a}, {"Fn::Or": [{"Fn::Equals": ["p", "q"]}, {"Condition": a}]},
+                           {"Fn::Not": [{"Fn::And": [{"Condition": a}, {"Fn::Equals": ["a", "a"]}]}]}])
+        members = [{"Condition": b}, {"Condition": c}]
+        if rng.random() < 0.3:
+            members.insert(rng.randrange(3), {"Fn::Equals": ["a", "a"]})
+        if rng.random() < 0.3:
+            members.reverse()
+        special = {a: {rng.choice(["Fn::And", "Fn::And", "Fn::Or"]): members}, b: back, c: side}
+        order = [a, b, c] + names[3:]
+        rng.shuffle(order)
+        conds = {k: special.get(k, conds[k]) for k in order}
+        # Fn::If inside a condition, naming a condition declared later (not valid CloudFormation, but parsed and resolved on demand
+        # like every other reference: seeded change C07-r7Im2 subscripted the mapping instead of asking the resolver)
+    if names and rng.random() < 0.12:
+        k1 = rng.choice(names)
+        conds[k1] = {"Fn::Equals": [{"Fn::If": [rng.choice(names), "live", "test"]}, rng.choice(["live", "test"])]}
+        ks = list(conds)
+        rng.shuffle(ks)
+        conds = {k: conds[k] for k in ks}
     resources = {}
+    if n >= 3:
+        for i, cn in enumerate(list(conds)[:3]):
+            resources[f"G{i + 1}"] = {"Type": "Custom::Gate", "Condition": cn, "Properties": {"V": {"Fn::If": [cn, "yes", "no"]}}}
     for i in range(rng.randint(1, 3)):
         r = gen_resource(rng, g, 1)
         if rng.random() < 0.7:
